@@ -241,3 +241,51 @@ func Harness_C18_block() {
 	br.seek(symString(VerifIntRange(0, 2)))
 	VerifCover("done")
 }
+
+// Harness_C01_block_maxrestarts: a block with more restart points than the 16-bit count can hold.
+// bounds: one concrete block of 66000 deletion refs with restart interval 1 (block size 2^20): the restart table must stop growing at 65535 entries and every record must read back
+// covers: done
+func Harness_C01_block_maxrestarts() {
+	const n = 66000
+	VerifMaxSteps(400000000)
+	buf := make([]byte, 1<<20)
+	bw := newBlockWriter(blockTypeRef, buf, 0, 20)
+	bw.restartInterval = 1
+	name := func(i int) string {
+		return string([]byte{'a' + byte(i/(26*26*26)), 'a' + byte(i/(26*26)%26), 'a' + byte(i/26%26), 'a' + byte(i%26)})
+	}
+	for i := 0; i < n; i++ {
+		VerifAssert(bw.add(&RefRecord{RefName: name(i), UpdateIndex: uint64(i & 1)}), "fits")
+	}
+	VerifAssert(len(bw.restarts) <= maxRestarts, "restart-count-fits-16-bits")
+	data := bw.finish()
+	br, err := newBlockReader(data, 0, 1<<20, 20)
+	VerifAssert(err == nil, "open")
+	if err != nil {
+		return
+	}
+	var bi blockIter
+	br.start(&bi)
+	for i := 0; i < n; i++ {
+		var got RefRecord
+		ok, err := bi.Next(&got)
+		VerifAssert(ok && err == nil, "dropped")
+		if !ok || err != nil {
+			return
+		}
+		if i%1000 == 0 || i > n-500 {
+			VerifAssert(got.RefName == name(i), "name")
+		}
+	}
+	var got RefRecord
+	ok, err := bi.Next(&got)
+	VerifAssert(err == nil && !ok, "extra")
+	// seeking still works past the restart table's reach
+	it, err := br.seek(name(n - 3))
+	VerifAssert(err == nil, "seek")
+	if err == nil {
+		ok, err = it.Next(&got)
+		VerifAssert(ok && err == nil && got.RefName == name(n-3), "seek-result")
+	}
+	VerifCover("done")
+}
